@@ -54,6 +54,10 @@ impl ValidatedShred {
         cached_commitment: Option<&SliceCommitment>,
         pk: &PublicKey,
     ) -> Result<Self, ShredValidationError> {
+        // the payload has to be proven at the shred's own position, not at an alias of it
+        if !shred.index_within_path_width() {
+            return Err(ShredValidationError::InvalidSignature);
+        }
         let slice_root = shred.slice_root();
         let msg = SliceCommitment::new(&shred.payload().header, &slice_root);
 
